@@ -514,7 +514,9 @@ class ContractSet:
             elif kw == 'inline':
                 target.inline = True
             elif kw == 'opaque':
-                target.opaque = True
+                # opaque f, g: the recursive spec functions f, g are not unfolded in this function's VCs (its proof
+                # only relates their values through the callees' postconditions)
+                target.opaque = [x.strip() for x in rest.split(',') if x.strip()] or True
             elif kw == 'trusted':
                 target.trusted = True
             elif kw == 'callsite':
